@@ -178,58 +178,54 @@ type PanicInfo struct {
 	OrbFunc  string // innermost frame inside github.com/paulmach/orb (not verifrt)
 	OrbFile  string
 	Stack    string
+	Funcs    []string // innermost first, runtime frames removed
 }
 
 // ClassDetail names where a panic belongs: the innermost frame when it is orb
 // code; the innermost orb frame when the panic surfaced in the standard
 // library below it; "dep:<package>" when it surfaced in a third-party
 // dependency (so that a dependency's defect is not confused with orb's).
-func (pi *PanicInfo) ClassDetail() string { return classDetail(pi.TopFunc, pi.OrbFunc) }
+func (pi *PanicInfo) ClassDetail() string { return ClassifyStack(pi.Funcs) }
 
-// ClassifyStack applies the same attribution to a goroutine dump (innermost
-// frame first): used for hangs, where the watchdog dumps the stacks.
-func ClassifyStack(funcs []string) string {
-	top, orb := "", ""
-	for _, f := range funcs {
-		if strings.HasPrefix(f, "runtime.") || strings.HasPrefix(f, "runtime/") {
-			continue
-		}
-		if top == "" {
-			top = f
-		}
-		if orb == "" && strings.HasPrefix(f, "github.com/paulmach/orb") && !strings.Contains(f, "/verifrt.") {
-			orb = f
-		}
-	}
-	if top == "" {
-		return "unknown"
-	}
-	return classDetail(top, orb)
-}
-
-func classDetail(top, orbFunc string) string {
-	if strings.HasPrefix(top, "github.com/paulmach/orb") {
-		return top
-	}
-	first := top
+func isStdlib(fn string) bool {
+	first := fn
 	if i := strings.Index(first, "/"); i >= 0 {
 		first = first[:i]
+	} else {
+		return true // "strings.ToLower", "sort.Sort": no path separator
 	}
-	if !strings.Contains(first, ".") || strings.HasPrefix(top, "verif/") {
-		// standard library (or harness) frame on top
-		if orbFunc != "" {
-			return orbFunc
+	return !strings.Contains(first, ".")
+}
+
+// ClassifyStack attributes a stack (innermost frame first): standard-library
+// and runtime frames on top are skipped; the first frame below them names the
+// culprit - the orb function, or "dep:<package>" for a third-party dependency.
+func ClassifyStack(funcs []string) string {
+	for _, f := range funcs {
+		if strings.HasPrefix(f, "runtime.") || strings.HasPrefix(f, "verif/") || strings.HasPrefix(f, "main.") {
+			continue
 		}
-		return top
-	}
-	// third-party: package path = up to the first dot after the last slash
-	pkg := top
-	if i := strings.LastIndex(pkg, "/"); i >= 0 {
-		if j := strings.Index(pkg[i:], "."); j >= 0 {
-			pkg = pkg[:i+j]
+		if strings.HasPrefix(f, "github.com/paulmach/orb") {
+			if strings.Contains(f, "/verifrt.") {
+				continue
+			}
+			return f
 		}
+		if isStdlib(f) {
+			continue
+		}
+		pkg := f
+		if i := strings.LastIndex(pkg, "/"); i >= 0 {
+			if j := strings.Index(pkg[i:], "."); j >= 0 {
+				pkg = pkg[:i+j]
+			}
+		}
+		return "dep:" + pkg
 	}
-	return "dep:" + pkg
+	if len(funcs) > 0 {
+		return funcs[0]
+	}
+	return "unknown"
 }
 
 // Catch runs f and returns a description of the panic it raised, or nil.
@@ -288,6 +284,7 @@ func describePanic(r interface{}) *PanicInfo {
 			continue
 		}
 		fmt.Fprintf(&sb, "%s %s:%d\n", fn, shortFile(fr.File), fr.Line)
+		pi.Funcs = append(pi.Funcs, fn)
 		if pi.TopFunc == "" {
 			pi.TopFunc = fn
 			pi.TopFile = fmt.Sprintf("%s:%d", shortFile(fr.File), fr.Line)
